@@ -173,6 +173,19 @@ claim(
     "DESIGN.md section 4, C10",
 )
 
+claim(
+    "C08",
+    "residue enumeration of the 16-byte padding; bit-provenance interpretation of encode_bias; finite-domain partition check of the per-core channel "
+    "slices; CFG placement rules for range bookkeeping and double-buffer sizes; sibling agreement of the consumers' rounding; dependency-set check of the cache key",
+    "Decides clauses a-g of DESIGN.md 4/C08: every range starts at residue 0 mod 16 for all 16 residues; the 10-byte record carries bias[0..39], "
+    "scale[0..31], shift[0..5]; for 1-2 cores and slice lengths 1-8 the per-core scale/bias index sets partition the slice (F22 found and fixed) and "
+    "weights are dealt the same way; ranges are recorded per (core, slice) with offsets taken at the right points; double-buffer sizes span all cores of a "
+    "slice; create_weights and create_dma_op round identically; every input of the weight stream is determined by the cache key or frozen with a reason "
+    "(known finding F4: IFM bit depth and operator kind are not). Does NOT decide the decoded contents.",
+    "Trusted: encoder output length is a multiple of 16 (C07-c); the frozen table of derived / constant encoding inputs.",
+    "DESIGN.md section 4, C08",
+)
+
 
 def build():
     checks = []
